@@ -1057,6 +1057,46 @@ def _values_equal_real(a, b):
 
 
 # ------------------------------------------------------------------ head / tail / sample (C20)
+def subsample_index_case(v, shape, N, which):
+    """head/tail on a schema whose INDEX component carries the constraints (SeriesSchema(index=Index(...)) / a stand-alone Index):
+    the row labels may repeat — a repeated label is two rows, both are validated when selected"""
+    lo = v.int("ilo")
+    uniq = v.bool("idx_unique")
+    h = v.int("h", 0, N) if "head" in which else None
+    t = v.int("t", 0, N) if "tail" in which else None
+    kw = {}
+    if h is not None:
+        kw["head"] = h
+    if t is not None:
+        kw["tail"] = t
+    labels = [z3.Int(f"l{i}") for i in range(N)]
+    if shape == "series_index":
+        obj = v.series("x", "float", N, sname="s", labels="l")
+        schema = pa.SeriesSchema(float, nullable=True, name="s", index=pa.Index(int, Check.ge(lo), unique=uniq))
+    else:
+        obj = v.frame([("a", "float")], N, labels="l")
+        schema = pa.Index(int, Check.ge(lo), unique=uniq)
+    snap = H.snapshot(obj)
+    o = H.outcome(lambda: schema.validate(obj, **kw))
+    sel = []
+    for i in range(N):
+        s_ = []
+        if h is not None:
+            s_.append(z3.IntVal(i) < v.z(h))
+        if t is not None:
+            s_.append(z3.IntVal(i) >= N - v.z(t))
+        sel.append(z3.Or(*s_) if s_ else z3.BoolVal(True))
+    viol = []
+    for i in range(N):
+        dup = zor(z3.And(sel[j], labels[i] == labels[j]) for j in range(N) if j != i)
+        viol.append(z3.And(sel[i], z3.Or(z3.Not(labels[i] >= v.z(lo)), z3.And(v.z(uniq), dup))))
+    asserts = [("subsample/index_verdict", v.iff(o["kind"] == "accept", z3.Not(zor(viol)))), ("subsample/channel", v.holds(channel_ok(o))),
+               ("subsample/input_unchanged", H.equal_to_snapshot(v, obj, snap))]
+    if o["kind"] == "accept":
+        asserts.append(("subsample/returns_whole_object", H.equal_to_snapshot(v, o["out"], snap)))
+    return dict(obs=o, asserts=asserts, facts=dict(kind=o["kind"], reason=o.get("reason"), h=None if h is None else 1, t=None if t is None else 1))
+
+
 def subsample_case(v, shape, N, which):
     """which: subset of {'head','tail','sample'} that is passed (the others stay None)"""
     lo = v.int("lo")
@@ -1139,7 +1179,7 @@ def option_case(v, what, N, opts):
     kind = opts.get("kind", "float")
     ser = v.series("x", kind, N, sname="s", labels="l", distinct_labels=True)
     labels = [z3.Int(f"l{i}") for i in range(N)]
-    xs, ns = v.cells("x", kind, N, kind in ("float", "str"))
+    xs, ns = v.cells("x", kind, N, kind in ("float", "str", "Int"))
     c = v.int("c")
     m = 2
     fam = opts.get("pred", "gt")
@@ -1209,6 +1249,9 @@ def option_case(v, what, N, opts):
                  ("le", Check.le(a), Check.less_than_or_equal_to(a))]
         try:
             pairs.append(("between", Check.between(a, b), Check.in_range(a, b)))
+            imin, imax = v.bool("imin"), v.bool("imax")
+            pairs.append(("between_flags", Check.between(a, b, imin, imax), Check.in_range(a, b, imin, imax)))
+            pairs.append(("between_kw", Check.between(min_value=a, max_value=b, include_min=imin, include_max=imax), Check.in_range(a, b, include_min=imin, include_max=imax)))
         except ValueError:
             pass
         for name, x, y in pairs:
@@ -1227,14 +1270,16 @@ def option_case(v, what, N, opts):
                 return f_vec(s)
             return fn
 
-        rT, rF = Check(mk(True), ignore_na=True)(ser), Check(mk(False), ignore_na=False)(ser)
+        rT = Check(mk(True), ignore_na=True)(ser)
         specT = zand(z3.Or(ns[i], f_z(xs[i])) for i in range(N))
         asserts.append(("opt/ignore_na_true_spec", v.iff(Bz(rT.check_passed) if v.sym else bool(rT.check_passed), specT)))
         hn_T = seen[True][0] if seen[True] else False
         asserts.append(("opt/ignore_na_true_never_shows_null", v.holds(z3.Not(Bz(hn_T)) if v.sym else not bool(hn_T))))
-        hn_F = seen[False][0] if seen[False] else False
-        anynull = zor(ns)
-        asserts.append(("opt/ignore_na_false_shows_null", v.iff(Bz(hn_F) if v.sym else bool(hn_F), anynull)))
+        if kind != "Int":  # (a comparison with <NA> yields <NA>, which the masked-array machinery cannot turn into a verdict: not modelled)
+            Check(mk(False), ignore_na=False)(ser)
+            hn_F = seen[False][0] if seen[False] else False
+            anynull = zor(ns)
+            asserts.append(("opt/ignore_na_false_shows_null", v.iff(Bz(hn_F) if v.sym else bool(hn_F), anynull)))
     elif what == "groupby":
         keys = (["x", "y", "x", "y", "x"])[:N]
         df = v.frame([("val", "float", False), ("key", "str", False, keys)], N, labels="l", distinct_labels=True)
@@ -2122,7 +2167,10 @@ def roundtrip_case(v, shape, fmt):
     elif shape == "df_checks":
         kw["checks"] = [Check.ge(lo)]
     elif shape == "multiindex":
-        kw["index"] = pa.MultiIndex([pa.Index(int, name="i0", unique=B["idx_unique"]), pa.Index(str, Check.isin(["x", "y"]), name="i1", nullable=B["idx_null"])])
+        kw["index"] = pa.MultiIndex([pa.Index(int, name="i0", unique=B["idx_unique"], coerce=v.bool("i0_coerce")),
+                                     pa.Index(str, Check.isin(["x", "y"]), name="i1", nullable=B["idx_null"], coerce=v.bool("i1_coerce"))])
+    elif shape == "index_flags":
+        kw["index"] = pa.Index(int, Check.ge(lo), unique=B["idx_unique"], nullable=B["idx_null"], coerce=v.bool("i0_coerce"), name="i")
     elif shape == "regex":
         cols = {"^a[0-9]$": pa.Column(float, Check.in_range(lo, lo + 5, B["rw"], B["ina"]), regex=True, nullable=B["nullable"]), "b": pa.Column(str, Check.isin(["x", "y"]))}
     elif shape == "joint_unique":
@@ -2175,6 +2223,12 @@ def roundtrip_case(v, shape, fmt):
                 ns = {}
                 exec(script, ns)  # noqa: S102 - executing pandera's own generated schema script
                 asserts.append(("roundtrip/script_equal", bool(ns["schema"] == S)))
+                S4 = ns["schema"]
+                if S.index is not None and S4.index is not None:
+                    lv = lambda ix: list(getattr(ix, "indexes", [ix]))  # noqa: E731
+                    same = len(lv(S.index)) == len(lv(S4.index)) and all(
+                        (a.nullable, a.coerce, a.name, bool(a.unique)) == (b.nullable, b.coerce, b.name, bool(b.unique)) for a, b in zip(lv(S.index), lv(S4.index)))
+                    asserts.append(("roundtrip/script_index_flags", bool(same)))
             except Exception as exc:  # noqa: BLE001
                 facts["_script"] = "raised:" + type(exc).__name__ + ":" + str(exc)[:100]
                 asserts.append(("roundtrip/script_equal", False))
@@ -2210,6 +2264,11 @@ def infer_case(v, shape, kinds, N, serialise):
         obj = v.mi_frame(arr, N, levels=[("k0", "l"), ("k1", "m")], extra_filtered=extra)
         cells = {c: tuple(x[:N] for x in v.cells(f"{c}_", k, N + extra, k in ("float", "str"))) for c, k in arr}
         idx_levels = {"k0": v.labels("l", N + extra)[:N], "k1": v.labels("m", N + extra)[:N]}
+    elif shape in ("frame_default_index", "frame_reversed"):
+        # pandas' default RangeIndex, as it is and reversed (`df[::-1]`: start > stop, step -1)
+        arr = [(f"c{i}", k) for i, k in enumerate(kinds)]
+        obj = v.frame(arr, N, reverse=(shape == "frame_reversed"))
+        cells = {c: v.cells(f"{c}_", k, N, k in ("float", "str")) for c, k in arr}
     else:
         arr = [(f"c{i}", k) for i, k in enumerate(kinds)]
         obj = v.frame(arr, N, labels="l")
